@@ -6,6 +6,8 @@ import (
 	"go/types"
 	"sort"
 	"strings"
+
+	"golang.org/x/tools/go/ssa"
 )
 
 const historyAppendKey = "(*" + modulePrefix + "utils.History).Append"
@@ -43,17 +45,59 @@ func (x *exec) appendSite(fr *frame, s *State, args []*Val, pos token.Pos) {
 		x.oblig(fr, s1.clone(), "inverse", label+":unknown-call", pos, "false", nil)
 		return
 	}
+	x.pairPrivate = x.privateCells(ex, rb)
 	x.compareStates(fr, s0, afterExec, s1, "inverse", label, pos)
+	x.pairPrivate = nil
+}
+
+// privateCells: variables of the enclosing function that only this pair's two closures capture (and that
+// the function itself only initialises) are the pair's own bookkeeping — `created := false` set by execute
+// and read by rollback. Nothing else can observe them, so they are not part of the state that must be restored.
+func (x *exec) privateCells(ex, rb *closure) []string {
+	var out []string
+	seen := map[*ssa.Alloc]bool{}
+	for _, cl := range []*closure{ex, rb} {
+		if cl.Instr == nil {
+			continue
+		}
+		for i, b := range cl.Instr.Bindings {
+			a, ok := b.(*ssa.Alloc)
+			if !ok || seen[a] || i >= len(cl.Bind) {
+				continue
+			}
+			seen[a] = true
+			private := true
+			for _, ref := range *a.Referrers() {
+				switch r := ref.(type) {
+				case *ssa.MakeClosure:
+					if r != ex.Instr && r != rb.Instr {
+						private = false
+					}
+				case *ssa.Store:
+					if r.Addr != a {
+						private = false // the address itself is stored somewhere
+					}
+				case *ssa.DebugRef:
+				default:
+					private = false
+				}
+			}
+			if private && cl.Bind[i] != nil && cl.Bind[i].L != nil && cl.Bind[i].L.K == LObj {
+				out = append(out, cl.Bind[i].L.Ref)
+			}
+		}
+	}
+	return out
 }
 
 // obligRelaxed records an obligation with a fallback hypothesis (a named assumption class).
-func (x *exec) obligRelaxed(fr *frame, s *State, kind, label string, pos token.Pos, goal, relax string) {
+func (x *exec) obligRelaxed(fr *frame, s *State, kind, label string, pos token.Pos, goal, relax, relaxName string) {
 	n := len(x.obligs)
 	x.oblig(fr, s, kind, label, pos, goal, nil)
 	if relax != "" && len(x.obligs) > n {
 		o := x.obligs[len(x.obligs)-1]
 		o.Relax = relax
-		o.RelaxName = "A-FRESHKEY"
+		o.RelaxName = relaxName
 	}
 }
 
@@ -81,7 +125,7 @@ func (x *exec) compareStates(fr *frame, s0, mid, s1 *State, kind, label string, 
 		t1 := s1.heap[n]
 		r := x.c.FreshConst("inv.r", "Int")
 		var goal string
-		relax := ""
+		relax, relaxName := "", ""
 		wfHyp := "true"
 		switch {
 		case strings.HasPrefix(n, "Md!"):
@@ -95,6 +139,10 @@ func (x *exec) compareStates(fr *frame, s0, mid, s1 *State, kind, label string, 
 			}
 			ks := keySortOf(x.h.sorts[n])
 			k := x.c.FreshConst("inv.k", ks)
+			if ks == "Str" {
+				// a key is a well-formed string
+				wfHyp = And(x.c.ICmp("<=", x.c.ILit(0), App("str-len", k)), x.c.ICmp("<=", App("str-len", k), x.c.ILit(1<<48)))
+			}
 			goal = And(Eq(Sel(Sel(t1, r), k), Sel(Sel(t0, r), k)),
 				Imp(Sel(Sel(t0, r), k), Eq(Sel(Sel(v1, r), k), Sel(Sel(v0, r), k))),
 				Eq(Sel(c1, r), Sel(c0, r)))
@@ -112,6 +160,34 @@ func (x *exec) compareStates(fr *frame, s0, mid, s1 *State, kind, label string, 
 				if len(stored) > 0 {
 					relax = fmt.Sprintf("(forall ((%s %s)) (! (=> (and (select (select %s %s) %s) (not (select (select %s %s) %s)) %s) (not (select (select %s %s) %s))) :pattern ((select (select %s %s) %s))))",
 						kq, ks, tm, r, kq, t1, r, kq, Or(stored...), t0, r, kq, t0, r, kq)
+					relaxName = "A-FRESHKEY"
+				}
+			}
+			// A-OWN: a map held in a struct field is referenced through that field only. A map that its owning
+			// field dropped (the rollback installed a copy with the same contents — the field's own obligation
+			// compares contents) is garbage: its contents need not be restored.
+			var own []string
+			for _, fn := range names {
+				m, ok := x.mapField[fn]
+				if !ok {
+					continue
+				}
+				if dn, _, _, _, _ := x.mapArrs(m); dn != n {
+					continue
+				}
+				f0, f1 := x.h.get(s0, fn, x.h.sorts[fn]), s1.heap[fn]
+				if f0 == f1 {
+					continue
+				}
+				o := x.c.Fresh("own")
+				own = append(own, fmt.Sprintf("(forall ((%s Int)) (! (=> (= (select %s %s) %s) (= (select %s %s) %s)) :pattern ((select %s %s))))",
+					o, f0, o, r, f1, o, r, f0, o))
+			}
+			if len(own) > 0 {
+				if relax == "" {
+					relax, relaxName = And(own...), "A-OWN"
+				} else {
+					relax, relaxName = And(append([]string{relax}, own...)...), relaxName+"+A-OWN"
 				}
 			}
 		case valueSortOf(sortN) == "Slice":
@@ -159,17 +235,27 @@ func (x *exec) compareStates(fr *frame, s0, mid, s1 *State, kind, label string, 
 				ds, vs, cs := x.h.sorts[dn], x.h.sorts[vn], x.h.sorts[cn]
 				if ds != "" && vs != "" && cs != "" {
 					k := x.c.FreshConst("inv.k", ks)
-					d0, d1 := Sel(Sel(x.h.get(s0, dn, ds), m0), k), Sel(Sel(x.h.get(s1, dn, ds), m1), k)
+					kwf := x.wf(k, m.Key())
+					// a nil map and an empty map are the same abstract value (they read, range and serialise alike)
+					d0 := And(Not(Eq(m0, "0")), Sel(Sel(x.h.get(s0, dn, ds), m0), k))
+					d1 := And(Not(Eq(m1, "0")), Sel(Sel(x.h.get(s1, dn, ds), m1), k))
 					v0, v1 := Sel(Sel(x.h.get(s0, vn, vs), m0), k), Sel(Sel(x.h.get(s1, vn, vs), m1), k)
-					same := And(Eq(Eq(m1, "0"), Eq(m0, "0")), Eq(d1, d0), Imp(d0, Eq(v1, v0)), Eq(Sel(x.h.get(s1, cn, cs), m1), Sel(x.h.get(s0, cn, cs), m0)))
-					goal = Or(goal, same)
+					n0 := Ite(Eq(m0, "0"), x.c.ILit(0), Sel(x.h.get(s0, cn, cs), m0))
+					n1 := Ite(Eq(m1, "0"), x.c.ILit(0), Sel(x.h.get(s1, cn, cs), m1))
+					same := And(Eq(d1, d0), Imp(d0, Eq(v1, v0)), Eq(n1, n0))
+					goal = Or(goal, Imp(kwf, same))
 				}
 				wfHyp = Or(Eq(m0, "0"), Sel(alive0, m0))
 			} else if valueSortOf(sortN) == "Int" && strings.HasPrefix(n, "F!") && x.c.Mode == ModeBV {
 				wfHyp = Or(Eq(Sel(t0, r), "0"), Sel(alive0, Sel(t0, r)))
 			}
 		}
-		x.obligRelaxed(fr, s1.clone(), kind, label+":"+shortHeapName(n), pos, Imp(And(Sel(alive0, r), wfHyp), goal), relax)
+		if strings.HasPrefix(n, "P!") {
+			for _, pc := range x.pairPrivate {
+				wfHyp = And(wfHyp, Not(Eq(r, pc)))
+			}
+		}
+		x.obligRelaxed(fr, s1.clone(), kind, label+":"+shortHeapName(n), pos, Imp(And(Sel(alive0, r), wfHyp), goal), relax, relaxName)
 	}
 	// globals
 	var gs []string
